@@ -71,8 +71,21 @@ func standardTlsConfig(_ context.Context, pool *x509.CertPool, opt ...nodeenroll
 			if _, err := leaf.Verify(verifyOpts); err != nil {
 				return fmt.Errorf("(%s) error verifying peer certificate: %w", op, err)
 			}
-			if len(opts.WithExpectedPublicKey) != 0 && subtle.ConstantTimeCompare(opts.WithExpectedPublicKey, leaf.SubjectKeyId) != 1 {
-				return fmt.Errorf("(%s) subject key ID does not match: %w", op, err)
+			if len(opts.WithExpectedPublicKey) != 0 {
+				if subtle.ConstantTimeCompare(opts.WithExpectedPublicKey, leaf.SubjectKeyId) != 1 {
+					return fmt.Errorf("(%s) subject key ID does not match: %w", op, err)
+				}
+				// The subject key ID is only a label chosen when the certificate
+				// was issued; what the peer proved possession of during the
+				// handshake is the certificate's actual public key, so that is
+				// what has to match the expected key
+				leafPubKeyPkix, err := x509.MarshalPKIXPublicKey(leaf.PublicKey)
+				if err != nil {
+					return fmt.Errorf("(%s) error marshaling peer certificate public key: %w", op, err)
+				}
+				if subtle.ConstantTimeCompare(opts.WithExpectedPublicKey, leafPubKeyPkix) != 1 {
+					return fmt.Errorf("(%s) peer certificate public key does not match expected public key", op)
+				}
 			}
 			return nil
 		},
